@@ -31,6 +31,8 @@ class Opts:
         self.p_through = 0.15
         self.p_passthrough = 0.2
         self.p_deep_link = 0.3
+        self.p_port_sym_in_resource = 0.4   # a resource of a node mentions one of the node's port-size symbols
+        self.p_multi_deep_link = 0.3   # one source linked to several parameters nested inside the same child
         self.p_fault_size = 0.0     # probability of deliberately contradicting a size
         self.rich = 0.25            # probability of non-polynomial operators in resource expressions
         self.p_shuffle_children = 0.5
@@ -271,10 +273,21 @@ def _decorate(rng, node, opts, is_root, under_rep=False, no_mult=False):
                 if rng.random() < 0.7:
                     links.setdefault(rng.choice(scope), []).append((ch["name"], p))
             # deep links into grandchildren
+            deep_done = set()
             for g in ch["children"]:
                 for p in g["input_params"]:
                     if rng.random() < opts.p_deep_link * 0.5 and not _is_linked(ch, g["name"], p):
                         links.setdefault(rng.choice(scope), []).append((ch["name"] + "." + g["name"], p))
+                        deep_done.add((g["name"], p))
+            # ONE source feeding several parameters nested inside the same child (N -> [a.b.x, a.c.x]): the preprocessing then has to
+            # forward several values of one name through that child
+            cand = [(g["name"], p) for g in ch["children"] for p in g["input_params"]
+                    if (g["name"], p) not in deep_done and not _is_linked(ch, g["name"], p)]
+            if len(cand) >= 2 and rng.random() < opts.p_multi_deep_link:
+                src = rng.choice(scope)
+                for gname, p in rng.sample(cand, rng.randint(2, min(3, len(cand)))):
+                    links.setdefault(src, []).append((ch["name"] + "." + gname, p))
+                ch.setdefault("_clash_hint", []).append(src)   # a name the child may well use for one of its own port sizes
     node["linked_params"] = list(links.items())
     rng.shuffle(node["linked_params"])
     # resources
@@ -369,6 +382,9 @@ def _assign_sizes(rng, node, opts, incoming_known, is_root):
                 known[p["name"]] = E.sym("#" + p["name"])
             else:
                 s = rng.choice(free)
+                hints = [h for h in node.get("_clash_hint", []) if h in free]
+                if hints and rng.random() < 0.5:
+                    s = rng.choice(hints)    # the child's own size symbol is spelled like a name an ancestor forwards through it
                 used_syms[s] = p["name"]
                 p["size"] = E.sym(s)
                 known[p["name"]] = E.sym(s)
@@ -396,6 +412,11 @@ def _assign_sizes(rng, node, opts, incoming_known, is_root):
     # a leaf may also declare compound sizes over its symbols for *outputs*
     port_syms = list(used_syms)
     node["_port_syms"] = port_syms
+    # a routine's costs are customarily written in terms of its register sizes: let some resource mention a port-size symbol
+    if port_syms and node["resources"] and node["repetition"] is None and rng.random() < opts.p_port_sym_in_resource:
+        rsrc = rng.choice(node["resources"])
+        if rsrc["name"] != "local_ancillae":
+            rsrc["value"] = E.bin_("+", rsrc["value"], E.bin_("*", E.num(rng.randint(1, 3)), E.sym(rng.choice(port_syms))))
     # children
     out_known = {}   # (child, port) -> tree in this node's scope or None
 
